@@ -193,7 +193,7 @@ class ReaderRef:
             self.left[i] = 0
             self.pos += 1
             return ("ok", str(got))
-        if op == "p":
+        if op in ("p", "q"):       # q = p followed by closing and dropping the iterator: the stream is just as unfinished
             want = int(tok.split(":")[1])
             got = min(want, self.left[i])
             self.left[i] -= got
@@ -221,7 +221,7 @@ def alphabet(pat, role, dialect):
             if dialect == "cpp":
                 toks += ["r%d" % i] + (["B%d:2" % i, "B%d:5" % i] if ch == "s" else [])
             else:
-                toks += ["r%d" % i] + (["p%d:1" % i, "n%d" % i] if ch == "s" else [])
+                toks += ["r%d" % i] + (["p%d:1" % i, "q%d:1" % i, "n%d" % i] if ch == "s" else [])
     return toks
 
 
